@@ -55,9 +55,11 @@ def integral(x, lo, hi):
     return [x == z3.ToReal(z3.ToInt(x)), x >= lo, x <= hi]
 
 
-def check_int(ctx, lib):
+def check_int(ctx, lib, alias=False):
     proc = lib["ecb_int"]
     ctx.encode("ecb.b09 procedure ecb_int", "\n".join(proc.lines))
+    if alias:
+        proc = c20.aliased(proc, "v", "retval")  # A = INT(A) is emitted as RUN ecb_int(A, A); variables go by reference
     # the procedure corrects BASIC09's truncation with `v - 0.999999999`: values within 1e-9 below an integer are outside
     from vf.tv.machine import floor_witness
 
@@ -71,11 +73,14 @@ def check_int(ctx, lib):
     sem, m, c, leaves = run_proc(proc, premises)
     for leaf in leaves:
         ctx.stats["obligations"] += 1
-        out = c20.final(leaf, m, "retval")
+        out = c20.final(leaf, m, "v" if alias else "retval")
         v, mdl = smt.check(list(leaf.cond) + [out != z3.ToReal(holder["fl"])], 30000, True)
         ctx.stats[v] += 1
-        ctx.sample({"procedure": "ecb_int", "path": [str(x) for x in leaf.cond][-1:], "verdict": v})
+        ctx.sample({"procedure": "ecb_int", "path": [str(x) for x in leaf.cond][-1:], "verdict": v, "argument and result share one variable": alias})
         if v == "sat":
+            if alias:
+                ctx.violation("ecb_int:not-floor:result-variable-is-the-argument", f"A = INT(A) with A = {mdl.eval(c['v'], True)} (emitted as RUN ecb_int(A, A)): procedure leaves {mdl.eval(out, True)}", {"v": str(mdl.eval(c["v"], True))})
+                continue
             ctx.violation("ecb_int:not-floor", f"INT({mdl.eval(c['v'], True)}): procedure gives {mdl.eval(out, True)}", {"v": str(mdl.eval(c["v"], True))})
         elif v == "unknown":
             ctx.note_inconclusive("ecb_int path")
